@@ -868,7 +868,8 @@ def plan_C12(tier, seed):
             a = kcfg(kind, n, alt=n + 2)
             sa = set() if kind in BAR_ONLY else {2}
             ba = BAD_BARS[:2] + [bar(3, 1, 2)] if kind in BAR_ONLY or kind in HLC_KINDS else []
-            jobs.append(Job("%s_f_n%d" % (kind, n), {1: a}, salpha=sa, balpha=ba, toks=FAULT_TOKS, resets={1}, maxdepth=(5 if q else 6),
+            # (kinds with both a scalar and a bar path have 19 ops per step: one step less for them in the thorough tier)
+            jobs.append(Job("%s_f_n%d" % (kind, n), {1: a}, salpha=sa, balpha=ba, toks=FAULT_TOKS, resets={1}, maxdepth=(5 if q or (sa and ba) else 6),
                             noovf=False, invariants=inv, view=False, emit="EmitLeaf"))
         # every period 1..64 for 3*period+3 calls with a fault injected at a different cursor position each time
         ids = {}
